@@ -15,7 +15,7 @@ PROPERTY = "C13"
 
 META = {
     "bounds": {
-        "quick": "patches of 0-2 records over {plain 1/2/3 bytes, run-length count 1/3}; offsets, data and run-length values symbolic bytes; delta symbolic in [-65536, 65535]; directive before / between / after the program's own output; 9 malformed variants",
+        "quick": "patches of 0-2 records over {plain 1/2/3 bytes, run-length count 1/3} + single run-length records of 32767 / 32768 / 65535 bytes; offsets, data and run-length values symbolic bytes; delta symbolic in [-65536, 65535]; directive before / between / after the program's own output; 9 malformed variants",
         "thorough": "patches of up to 3 records, plus a 300-byte plain record and a run-length record of 300",
     },
     "outside": ["records whose offset reads 'EOF' (format ambiguity, assumed away)", "patches with more than 3 records", "symbolic record sizes (sizes and run-length counts are enumerated, their data is symbolic)", "relative order between included records and the program's own blocks (not stated)"],
@@ -42,6 +42,9 @@ def jobs(tier, seed):
     if tier == "thorough":
         out.append({"id": "ok/P300/between", "fam": "ok", "seq": ["P300"], "place": "between"})
         out.append({"id": "ok/R300-P1/between", "fam": "ok", "seq": ["R300", "P1"], "place": "between"})
+    # run-length counts around the 15/16-bit boundaries
+    for k in ("R32767", "R32768", "R65535"):
+        out.append({"id": f"ok/{k}/between", "fam": "ok", "seq": [k], "place": "between"})
     out.append({"id": "ok/literal-delta", "fam": "ok", "seq": ["P2", "R3"], "place": "between", "literal_delta": True})
     for seq in (["P1"], ["P2", "R3"], ["R1", "P3"]):
         out.append({"id": f"ok/twice/{'-'.join(seq)}", "fam": "ok", "seq": seq, "place": "between", "twice": True})
